@@ -6,6 +6,7 @@
 package vnet
 
 import (
+	"errors"
 	"io"
 	"net"
 	"os"
@@ -34,6 +35,18 @@ type Conn struct {
 	// YieldAfterWrite adds a scheduling point between the delivery of the bytes to the peer and the return of Write
 	// (the peer may react before the writer runs on)
 	YieldAfterWrite bool
+	// DeadlineErr: the Set*Deadline calls take effect and then report an error (a transport wrapper whose underlying call half
+	// succeeded)
+	DeadlineErr bool
+}
+
+var errDeadline = errors.New("vnet: deadline call reports an error")
+
+func (c *Conn) dlErr() error {
+	if c.DeadlineErr {
+		return errDeadline
+	}
+	return nil
 }
 
 func New() *Conn { return &Conn{} }
@@ -107,21 +120,21 @@ func (c *Conn) SetDeadline(t time.Time) error {
 	c.log("SetDeadline", t)
 	c.rdl, c.wdl = t, t
 	c.arm(t)
-	return nil
+	return c.dlErr()
 }
 
 func (c *Conn) SetReadDeadline(t time.Time) error {
 	c.log("SetReadDeadline", t)
 	c.rdl = t
 	c.arm(t)
-	return nil
+	return c.dlErr()
 }
 
 func (c *Conn) SetWriteDeadline(t time.Time) error {
 	c.log("SetWriteDeadline", t)
 	c.wdl = t
 	c.arm(t)
-	return nil
+	return c.dlErr()
 }
 
 // Deadlines returns the effective read and write deadlines.
